@@ -23,12 +23,12 @@ RULE = ("scenarios = content operations followed by saves, enumerated by TLC (BF
         "k (RLIMIT_FSIZE = k, every k in 0..N+2 for small packages, evenly spaced + edges + buffer boundaries for large "
         "ones) and once more without a limit; every call is one judged observation")
 
-GROUPS = ["sweep-all", "sweep-large", "targets", "md-targets", "md-sweep", "resave", "opened"]
+GROUPS = ["sweep-all", "sweep-large", "targets", "md-targets", "md-sweep", "resave", "opened", "odd-sweep", "spelt-sweep", "conc"]
 
 
 def gencfg(ctx, name, groups):
     return ctx.cfg(name, "SpecGen", {
-        "MaxEnt": 1, "MaxDat": 1, "DirSizes": {1}, "BufSizes": {2}, "MCVariants": {"intended"}, "MCTargets": {"newdir"},
+        "MaxEnt": 1, "MinDat": 1, "MaxDat": 1, "DirSizes": {1}, "BufSizes": {2}, "MCVariants": {"intended"}, "MCTargets": {"newdir"},
         "GroupNames": set(groups)}, invariants=["Emit"])
 
 
